@@ -606,6 +606,15 @@ def run(tier, seed, replay=None):
             run_config(res, known, slack, opt, tier, seed, sides, full)
     if tier != "quick" and drv_ok:
         res.extra["casefold_value_vs_python"] = casefold_report(s1)
+    if tier != "quick" and lean_ok:
+        # independent re-check of the compiled proofs by the stand-alone kernel
+        mods = sorted({o["module"] for o in obs} | {"SafeC.Props.C17"})
+        t = time.time()
+        r = subprocess.run(["lake", "env", "leanchecker"] + mods, cwd=orch.LEAN, capture_output=True, text=True, timeout=3000)
+        res.extra["leanchecker"] = dict(modules=mods, exit=r.returncode, seconds=round(time.time() - t, 1), output=(r.stdout + r.stderr)[-500:])
+        if r.returncode != 0:
+            res.mismatch.append(dict(kind="proof", property=PID, fn="leanchecker", line="leanchecker " + " ".join(mods), impl=None, model=None,
+                                     what="leanchecker rejected the compiled proofs: " + (r.stdout + r.stderr)[-300:]))
     for x in res.mismatch[:8]:
         log("   mismatch:", x.get("fn"), x.get("line"), "| impl", x.get("impl"), "| model", x.get("model"))
     trusted = ["Lean 4.33 kernel; axioms propext, Classical.choice, Quot.sound only (audited per theorem on every run)",
